@@ -223,9 +223,81 @@ def boundary_bookkeeping(ctx, g):
            "one edge (d, i, None) per chamber di first reached through an operation; all indices, all chambers" if not bad else bad)
 
 
+def trace_word_shape(ctx, g):
+    """trace_word(ds, edge_to_word, d, Some(i), Some(j)) multiplies the words of the edges met on the walk d -i-> . -j-> . -i-> .. back to d, in that
+    order: word of (e, i), step by i, word of (e, j) at the NEW chamber, step by j; left when e == d.  With one index it is the single edge's
+    word.  The versions of the walking chamber at each lookup are decided by dominance between the two steps and the two products"""
+    ctx.clauses.append("trace_word: word(e, i), e := e.i, word(e, j), e := e.j, until e == d - each word looked up at the chamber reached so far (T9)")
+    b = ctx.body("fundamental_group::trace_word")
+    ctx.scan([b])
+    ds, e2w, d_ = (("param", k, b.debug.get(k, "")) for k in (1, 2, 3))
+    I = ("field", ("variant", ("param", 4, b.debug.get(4, "")), "Some"), "0")
+    J = ("field", ("variant", ("param", 5, b.debug.get(5, "")), "Some"), "0")
+    loops = natural_loops(b)
+    bad = None
+    if len(loops) != 1:
+        bad = "%d loops" % len(loops)
+    else:
+        h, blocks = loops[0]
+        blocks = set(blocks)
+
+        def key_of(x):
+            x = strip(x)
+            if is_call(x, "Option::<T>::unwrap_or") and is_call(strip(x[2][0]), "::get") and strip(strip(x[2][0])[2][0]) == e2w:
+                k = strip(strip(x[2][0])[2][1])
+                if k[0] == "agg" and len(k[2]) == 2:
+                    return strip(k[2][0]), strip(k[2][1])
+            return None
+        muls = [(bi, key_of(norm(b.origin(t["args"][1]), g))) for bi, t in b.calls("MulAssign::mul_assign")]
+        inl = [(bi, k) for bi, k in muls if bi in blocks]
+        out = [(bi, k) for bi, k in muls if bi not in blocks]
+        es = {k[0] for bi, k in inl if k}
+        if len(inl) != 2 or None in [k for _, k in inl] or len(es) != 1 or list(es)[0][0] != "local":
+            bad = "the walk does not multiply exactly two looked-up words per round, both at the walking chamber"
+        else:
+            e = list(es)[0]
+            defs = [(dd[0], dd[1]) for dd in b.defs.get(e[1], []) if dd[0] in blocks]
+            dterms = {dbb: strip(norm(t_, g)) for dbb, t_ in b.all_defs_origins(e[1]) if dbb in blocks}
+            init = [strip(norm(t_, g)) for dbb, t_ in b.all_defs_origins(e[1]) if dbb not in blocks]
+
+            def step_idx(t_):
+                if is_call(t_, "Option::<T>::unwrap_or") and is_call(strip(t_[2][0]), "DSet::op") and strip(t_[2][1]) == e:
+                    o = strip(t_[2][0])
+                    if strip(o[2][0]) == ds and strip(o[2][2]) == e:
+                        return strip(o[2][1])
+                return None
+            steps = sorted(((dbb, step_idx(t_)) for dbb, t_ in dterms.items()), key=lambda x: x[0])
+            if len(steps) != 2 or init != [d_] or any(k is None for _, k in steps):
+                bad = "the walking chamber is not `e = d; e = ds.op(k, e).unwrap_or(e)` twice per round"
+            else:
+                m_i = [bi for bi, k in inl if k[1] == I]
+                m_j = [bi for bi, k in inl if k[1] == J]
+                s_i = [bb for bb, k in steps if k == I]
+                s_j = [bb for bb, k in steps if k == J]
+                if not (len(m_i) == len(m_j) == len(s_i) == len(s_j) == 1):
+                    bad = "not one product and one step for each of the two indices"
+                elif not (b.dominates(m_i[0], s_i[0]) and b.dominates(s_i[0], m_j[0]) and b.dominates(m_j[0], s_j[0]) and m_i[0] != s_i[0] and s_i[0] != m_j[0] and m_j[0] != s_j[0]):
+                    bad = "the order inside a round is not: word(e, i), step by i, word(e, j), step by j"
+                else:
+                    ex = [a for (x1, x2), ats in loop_exit_atoms(b, h, blocks, g) for a in ats]
+                    okx = any(a[0] == "rel" and a[1] == "Eq" and {strip(a[2]), strip(a[3])} == {e, d_} for a in (atom_norm(x, g) for x in ex))
+                    first_in_round = all(not (bb in blocks and b.dominates(bb, m_i[0]) and bb != m_i[0]) for bb in (s_i[0], s_j[0], m_j[0]))
+                    if not okx:
+                        bad = "the walk is not left exactly when it is back at d"
+                    elif not first_in_round:
+                        bad = "the round does not start with word(e, i)"
+        if not bad:
+            singles = sorted((k for _, k in out), key=repr)
+            if sorted([(d_, I), (d_, J)], key=repr) != singles:
+                bad = "with a single index the word is not that of the edge (d, i) resp. (d, j): %s" % (singles,)
+    ctx.ob("T9-trace-word", b.name, "walk", "ok" if not bad else "violation",
+           "word(e, i); e := e.i; word(e, j); e := e.j; until e == d; single edges (d, i) / (d, j) otherwise" if not bad else bad)
+
+
 def run(ctx):
     g = ctx.facts.getters()
     boundary_bookkeeping(ctx, g)
+    trace_word_shape(ctx, g)
     closing_test(ctx, g)
     sentinel_not_unwrapped(ctx, g)
     # (1) reducedness: T1 over the whole crate
